@@ -1442,8 +1442,35 @@ fn with_parens_liberal(expr: &Expression) -> Markup {
 fn pretty_print_binop(op: &BinaryOperator, lhs: &Expression, rhs: &Expression) -> Markup {
     match op {
         BinaryOperator::ConvertTo => {
-            // never needs parens, it has the lowest precedence:
-            lhs.pretty_print() + op.pretty_print() + rhs.pretty_print()
+            // lowest precedence of all binary operators, left-associative: only a conditional
+            // (which binds even less tightly) and a conversion on the right need parens
+            let lhs_add_parens_if_needed = |expr: &Expression| {
+                if matches!(expr, Expression::Condition { .. }) {
+                    with_parens(expr)
+                } else {
+                    expr.pretty_print()
+                }
+            };
+            let rhs_add_parens_if_needed = |expr: &Expression| {
+                if matches!(
+                    expr,
+                    Expression::Condition { .. }
+                        | Expression::BinaryOperator {
+                            op: BinaryOperator::ConvertTo,
+                            ..
+                        }
+                        | Expression::BinaryOperatorForDate {
+                            op: BinaryOperator::ConvertTo,
+                            ..
+                        }
+                ) {
+                    with_parens(expr)
+                } else {
+                    expr.pretty_print()
+                }
+            };
+
+            lhs_add_parens_if_needed(lhs) + op.pretty_print() + rhs_add_parens_if_needed(rhs)
         }
         BinaryOperator::Mul => match (lhs, rhs) {
             (
